@@ -41,6 +41,40 @@ def run(ctx):
         q = m.q(f)
         want = {"New": ("place_order", ["order_id"]), "Cancellation": ("cancel_order", ["order_id"]), "Modify": ("modify_order", ["order_id", "new_price", "new_vol"])}
         calls = [c for c in q.calls() if c.target is not None]
+        if owner == "Market" and len(calls) != 3:
+            # alternative spelling: split the instruction into (asset, per-book instruction) and forward to that book's
+            # process_event (whose own dispatch is checked above)
+            qi_ = m.qi(f)
+            fw = [c for c in qi_.calls("process_event") if c.target is not None and (c.target.impl_adt or "").endswith("orderbook::OrderBook")]
+            okf = len(fw) == 1 and not fw[0].guards and len([c for c in qi_.calls() if c.target is not None]) == 1
+            detail = "%d forwarding calls" % len(fw)
+            if okf:
+                recv, ev = fw[0].args[0], fw[0].args[1]
+                ix = [x for x in walk(recv) if x[0] == "index"]
+                alts = ev[1] if ev[0] == "phi" else (ev,)
+                vs = {}
+                for a in alts:
+                    if a[0] == "agg" and "Event::" in a[2]:
+                        vs[a[2].split("::")[-1]] = dict(zip(a[4], a[3]))
+                okf = set(vs) == set(want) and len(ix) == 1
+                detail = "forwarded instruction kinds %s" % sorted(vs)
+                for v, fields in vs.items():
+                    for fname, e in fields.items():
+                        root, names = field_chain(e)
+                        names = [n for n in names if not n.startswith("as ")]
+                        good = root[0] == "param" and root[2] == "event" and any(x[0] == "downcast" and x[2] == v for x in walk(e)) and \
+                            (names == ["order_id", "1"] if fname == "order_id" else names == [fname])
+                        if not good:
+                            okf = False
+                            detail = "%s.%s <- %s" % (v, fname, render(e))
+                if okf:
+                    idx = ix[0][2]
+                    ialts = idx[1] if idx[0] == "phi" else (idx,)
+                    okf = all(field_chain(a)[0][0] == "param" and [n for n in field_chain(a)[1] if not n.startswith("as ")] == ["order_id", "0"] for a in ialts)
+                    detail = "book index %s" % render(idx)
+            ctx.check(okf, "dispatch", "Market|forward", ctx.loc(f), "Market::process_event forwards each instruction, re-addressed to (asset, id), to order_books[asset].process_event, fields bound by name",
+                      "Market::process_event neither dispatches on the three kinds nor forwards a faithfully re-addressed instruction: " + detail)
+            continue
         ctx.check(len(calls) == 3, "dispatch", owner + "|arms", ctx.loc(f), "%s::process_event has exactly 3 dispatch calls" % owner, "%s::process_event makes %d calls" % (owner, len(calls)))
         seen = set()
         for c in calls:
@@ -63,7 +97,7 @@ def run(ctx):
         qf = shapes[owner].queue_field
         for name, variant, fields in (("place_order", "New", ["order_id"]), ("cancel_order", "Cancellation", ["order_id"]), ("modify_order", "Modify", ["order_id", "new_price", "new_vol"])):
             f = getter(name)
-            q = m.q(f)
+            q = m.qi(f)    # a private `submit(event)` wrapper around the queue push is spliced in
             pushes = [c for c in q.calls("push") if fld(c.args[0], qf)]
             ok = len(pushes) == 1 and not q.cfg.in_loop(pushes[0].b)
             if ok:
